@@ -58,4 +58,27 @@ PROPS = {
         trusted_base=BP_TB + ["wall-clock latency of timers and goroutine scheduling is not modelled: the deadline is checked against a generous bound (5x timeout + 2 s) and reported as evidence"],
         assumptions=["timer fires are taken from the event log; time itself is not part of the model comparison"],
     ),
+    "C06": dict(
+        runs=[bp_sys("C06", 50, 1500)],
+        rule="whole-processor runs with 1-5 concurrent callers whose requests are merged and split across batches, injected export failures "
+             "(40% of exports), cancellations at random points; per shard the apportioning (waiter, count) of every send is compared with the model, "
+             "per call the responses delivered to its channel are replayed through the waitForItems model and compared with what the call returned",
+        trusted_base=BP_TB + ["Go errors.Is / errors.Join / Unwrap semantics (the result is represented by the set of export errors it wraps)"],
+        assumptions=["a call whose context was cancelled before it returned is only required to return a context error (promptness is not timed)"],
+    ),
+    "C10": dict(
+        runs=[bp_sys("C10", 50, 1500)],
+        rule="whole-processor runs with metadata_keys of 1-3 (mixed-case) keys, values absent / empty / single / multi-valued, limits 0-3, 3-7 concurrent "
+             "callers racing for the last slots; same-shard relation, export-visible metadata and admission counts evaluated by the Coq model",
+        trusted_base=BP_TB + ["attribute.NewSet equality is modelled as per-key equality of String/StringSlice attributes; sync.Map Load/LoadOrStore and the mutex are atomic events"],
+        assumptions=["combination strings are interned by the harness; requests after Shutdown are outside the domain"],
+    ),
+    "C11": dict(
+        runs=[bp_sys("C11", 60, 2000)],
+        rule="whole-processor runs with max_concurrency in {0,1,2,3}, 2-7 callers, random export latencies/failures/cancellations, Shutdown while items are "
+             "buffered or callers wait; the recorded event log must be a trace of the protocol LTS (every step enabled), max in-flight measured at the "
+             "downstream consumer, every export returned before Shutdown returned, 20 s watchdog for deadlocks",
+        trusted_base=BP_TB + ["data-race freedom and goroutine leaks are runtime properties outside the model (goroutine count and -race runs are evidence only)"],
+        assumptions=["downstream consumers return (possibly with an error); requests issued after Shutdown was called are outside the domain"],
+    ),
 }
